@@ -123,6 +123,7 @@ package bytecode
 //@   loop 1 invariant initial: rangeindex == -1 ==> initialEnv(info)
 //@   loop 1 invariant noerror: rangeindex >= 0 ==> info.currentType != PTERROR
 //@   ensures either: (result.1 == nil) != (result.0 == nil)
+//@   ensures bound: result.1 == nil ==> has(state.globalTransformations, id) && state.globalTransformations[id] == s.Statements [C05]
 
 // ---- relocation of a stored pattern (bytecode.go adjust): pure and exact (C13, C01-R) ----
 // Every absolute program-counter field moves by offset, nothing else changes, and nothing that
@@ -256,15 +257,20 @@ package bytecode
 //@   requires l != nil && state != nil
 //@   ensures item: ((*l) is *ast.AstString || (*l) is *ast.AstVariable) && wfbox(*l) ==> result.1 == nil && len(result.0) == 1 && itemInst(*l, state.globalTransformations, result.0[0]) [C05]
 
-//@ func generateFindCommand [C13]
+//@ func generateFindCommand [C13 C08]
 //@   noframe
 //@   requires f != nil && state != nil
+//@   ensures amounts: result.1 == nil ==> result.0 is FindCommand && (result.0 as FindCommand).All == f.All && (result.0 as FindCommand).Skip == f.Skip && (result.0 as FindCommand).Take == f.Take && (result.0 as FindCommand).Last == f.Last [C04]
+//@   loop 1 invariant amounts: result.All == f.All && result.Skip == f.Skip && result.Take == f.Take && result.Last == f.Last && *f == old(*f) [C04]
 //@   loop 1 invariant scope: rangeindex == -1 ==> fresh(state.variables) && state.variables != nil && (forall k Str :: { select(domain(state.variables), k) } !has(state.variables, k))
 //@   loop 1 invariant live: state.variables != nil
 //@ pred wfAtom(a ast.AstAtom) := (a is *ast.AstString || a is *ast.AstVariable) && wfbox(a)
-//@ func generateReplaceCommand [C13 C05]
+//@ func generateReplaceCommand [C13 C05 C08]
 //@   noframe
 //@   requires r != nil && state != nil
+//@   ensures amounts: result.1 == nil ==> result.0 is ReplaceCommand && (result.0 as ReplaceCommand).All == r.All && (result.0 as ReplaceCommand).Skip == r.Skip && (result.0 as ReplaceCommand).Take == r.Take && (result.0 as ReplaceCommand).Last == r.Last [C04]
+//@   loop 1 invariant amounts: result.All == r.All && result.Skip == r.Skip && result.Take == r.Take && result.Last == r.Last && *r == old(*r) [C04]
+//@   loop 2 invariant amounts: result.All == r.All && result.Skip == r.Skip && result.Take == r.Take && result.Last == r.Last && *r == old(*r) [C04]
 //@   presumes atoms: forall j :: { r.Result[j] } 0 <= j && j < len(r.Result) ==> wfAtom(r.Result[j]) [C05]
 //@   ensures items: result.1 == nil ==> result.0 is ReplaceCommand && len((result.0 as ReplaceCommand).Replacer) == len(r.Result) && (forall j :: { (result.0 as ReplaceCommand).Replacer[j] } 0 <= j && j < len(r.Result) ==> itemInst(r.Result[j], state.globalTransformations, (result.0 as ReplaceCommand).Replacer[j])) [C05]
 //@   loop 2 invariant items: len(result.Replacer) == rangeindex + 1 && rangeindex < len(r.Result) && (forall j :: { result.Replacer[j] } 0 <= j && j <= rangeindex ==> itemInst(r.Result[j], state.globalTransformations, result.Replacer[j])) [C05]
@@ -278,4 +284,4 @@ package bytecode
 //@   loop 2 invariant initial: rangeindex == -1 ==> initialEnv(info) [C12]
 //@   loop 2 invariant noerror: rangeindex >= 0 ==> info.currentType != PTERROR [C12]
 //@   loop 1 invariant scope: rangeindex == -1 ==> fresh(state.variables) && state.variables != nil && (forall k Str :: { select(domain(state.variables), k) } !has(state.variables, k))
-//@   loop 1 invariant live: state.variables != nil && state.globalSubroutines != nil
+//@   loop 1 invariant live: state.variables != nil && state.globalSubroutines != nil [C13 C12 C08]
